@@ -850,7 +850,7 @@ func ruleStreamCreation(p *Prog, r *Out) {
 				if strings.Contains(t, "closedStrms[") {
 					closed = true
 				}
-				if c2, ok := p.canonCmp(g.Cond, nil); ok && c2.Op == "le" && strings.Contains(t, "lastID") && strings.Contains(t, "Stream()") {
+				if c2, ok := p.canonCmp(g.Cond, nil); ok && c2.Op == "le" && c2.L.eq(Lin{T: map[string]int64{"fr.Stream()": 1, "highID": -1}}) {
 					lower = true
 				}
 			}
@@ -873,7 +873,7 @@ func ruleStreamCreation(p *Prog, r *Out) {
 				if strings.Contains(t, "openStreams >= ") || strings.Contains(t, "wasClosing") {
 					posRefuse = g.If.Pos()
 				}
-				if strings.Contains(t, "lastID") && strings.Contains(t, "Stream() <") {
+				if c2, ok := p.canonCmp(g.Cond, nil); ok && c2.Op == "le" && c2.L.eq(Lin{T: map[string]int64{"fr.Stream()": 1, "highID": -1}}) {
 					posLower = g.If.Pos()
 				}
 			}
@@ -982,7 +982,7 @@ func ruleGoAwayBookkeeping(p *Prog, r *Out) {
 					return true
 				}
 				if squash(p.text(ifs.Body.List[0])) == "atomic.StoreUint32(&sc.lastID,fr.Stream())" && squash(p.text(ifs.Body.List[1])) == "wasClosing=isClosing()" &&
-					p.isConjunctionOf(ifs.Cond, "fr.Type()==FrameHeaders", "fr.Stream()>sc.lastID", "openStreams<int(sc.st.maxStreams)", "!wasClosing") {
+					p.isConjunctionOf(ifs.Cond, "newRequest", "openStreams<int(sc.st.maxStreams)", "!wasClosing") && p.newRequestDefined(hs, ifs) {
 					// and the refusal test that reads wasClosing comes after it
 					pm := p.pmFor(hs)
 					if blk, ok := pm[ifs].(*ast.BlockStmt); ok {
